@@ -208,7 +208,12 @@ def sround(x, ndigits=None, numpy_style=False):
     half = z3.RatVal(1, 2 * 10 ** ndigits) if ndigits >= 0 else z3.RealVal(5 * 10 ** (-ndigits - 1))
     apps = c.uf_apps.setdefault(('round', ndigits, numpy_style), [])
     if not LEMMAS['round_lemmas']:
-        return SNum(app)       # plain uninterpreted function (any function): sound over-approximation
+        # plain uninterpreted function (any function): sound over-approximation.  Models used for
+        # replay / validation take the rounding as the identity, which real rounding is up to 0.5*10**-n
+        if not any(a.eq(xt) for a, _ in apps):
+            c.robust.append(app == xt)
+            apps.append((xt, app))
+        return SNum(app)
     if not any(a.eq(xt) for a, _ in apps):
         c.lemma(z3.And(app - xt <= half, xt - app <= half))
         c.robust.append(z3.And(app - xt <= half * z3.RealVal('49/50'), xt - app <= half * z3.RealVal('49/50')))
